@@ -161,8 +161,21 @@ Entry(i, v) ==
       [] i = 33 -> Ent(<<SDecl(EVar(Nm(v, 1)), OA(E0)),
                          SAssign(EProp(EVar(Nm(v, 1)), KA), EVar(Nm(v, 1)))>>, EVar(Nm(v, 1)))   \* o = {a:o}
       [] i = 34 -> Ent(<<>>, EList(<<EList(<<>>)>>))
-NEntries == 34
-ContainerEntries == (8 .. 28) \cup {31, 33, 34}
+      [] i = 35 -> Ent(<<>>, EList(<<EList(<<E0>>), EList(<<E1>>)>>))                 \* [[0],[1]]
+      [] i = 36 -> Ent(<<>>, EList(<<EList(<<E1>>), EList(<<E0>>)>>))
+      [] i = 37 -> Ent(<<SDecl(EVar(Nm(v, 1)), EList(<<E0>>))>>,
+                       EList(<<EVar(Nm(v, 1)), EVar(Nm(v, 1)), EVar(Nm(v, 1))>>))       \* [c,c,c]
+      [] i = 38 -> Ent(<<>>, EList(<<EList(<<E0>>), EList(<<E0>>), EList(<<E1>>)>>))
+      [] i = 39 -> Ent(<<SDecl(EVar(Nm(v, 1)), OA(E0))>>,
+                       EObj(<<Pair(EStr(KA), EVar(Nm(v, 1))), Pair(EStr(KB), EVar(Nm(v, 1)))>>))  \* {a:o,b:o}
+      [] i = 40 -> Ent(<<>>, EObj(<<Pair(EStr(KA), OA(E0)), Pair(EStr(KB), OA(E1))>>))
+      [] i = 41 -> Ent(<<>>, EObj(<<Pair(EStr(KA), OA(E0)), Pair(EStr(KB), OA(E0))>>))
+      [] i = 42 -> Ent(<<SDecl(EVar(Nm(v, 1)), EList(<<>>))>>,
+                       EList(<<EVar(Nm(v, 1)), EList(<<EVar(Nm(v, 1)), E1>>)>>))         \* [e,[e,1]]
+      [] i = 43 -> Ent(<<>>, EList(<<EList(<<>>), EList(<<EList(<<>>), E1>>)>>))
+      [] i = 44 -> Ent(<<>>, EList(<<EList(<<>>), EList(<<EList(<<E0>>), E1>>)>>))
+NEntries == 44
+ContainerEntries == (8 .. 28) \cup {31, 33, 34} \cup (35 .. 44)
 
 Prelude == <<SFn(F, <<>>, FALSE, <<>>)>>
 Build(i, v) == Entry(i, v).pre \o <<SDecl(EVar(v), Entry(i, v).e)>>
@@ -172,7 +185,7 @@ C10Params ==
     { <<"eq", i, j>> : i \in 1 .. NEntries, j \in 1 .. NEntries }
     \cup { <<"ref", i, j>> : i \in ContainerEntries \cup {29, 32}, j \in ContainerEntries \cup {29, 30, 32, 4} }
     \cup { <<"alias", i, 0>> : i \in 1 .. NEntries }
-    \cup { <<"nested", i, j>> : i \in {9, 16, 18, 20, 29}, j \in {9, 15, 18, 20, 7} }
+    \cup { <<"nested", i, j>> : i \in {8, 9, 16, 18, 20, 29, 35}, j \in {8, 9, 10, 15, 18, 20, 7, 34} }
 
 C10ProgOf(p) ==
     CASE p[1] = "eq" ->
@@ -192,6 +205,10 @@ C10ProgOf(p) ==
             \o <<SPrint(EBin("==", EList(<<EVar(A)>>), EVar(A))),
                  SPrint(EBin("==", EList(<<EVar(A), EVar(Bv)>>), EList(<<EVar(Bv), EVar(A)>>))),
                  SPrint(EBin("==", EList(<<EVar(A), EVar(A)>>), EList(<<EVar(A), EVar(Bv)>>))),
+                 SPrint(EBin("==", EList(<<EVar(A), EVar(A)>>), EList(<<EVar(Bv), EVar(Bv)>>))),
+                 SPrint(EBin("==", EList(<<EVar(Bv), EVar(A), EVar(A)>>), EList(<<EVar(A), EVar(A), EVar(Bv)>>))),
+                 SPrint(EBin("==", EObj(<<Pair(EStr(KA), EVar(A)), Pair(EStr(KB), EVar(A))>>),
+                                   EObj(<<Pair(EStr(KA), EVar(A)), Pair(EStr(KB), EVar(Bv))>>))),
                  SPrint(EVar(Bv))>>
 
 Finished == status.k # "running"
